@@ -40,6 +40,8 @@ fn(P + 'flat.unit_grid', properties=['C14'], cases=[{'triangulate': False, 'gene
           1: loop(invariant=['empty_attrs(out)', 'len(out.vertices._data) == it0*nv + it1',
                              'len(out.faces._data) == (it0 if it0 < nu-1 else nu-1)*(nv-1)*k + (0 if it0 >= nu-1 else (it1 if it1 < nv-1 else nv-1)*k)',
                              'grid_faces(out, (it0 if it0 < nu-1 else nu-1), nv-1, nv, triangulate)',
+                             # the same length through gid (makes the term available to the injectivity lemma)
+                             'implies(it0 < nu-1, len(out.faces._data) == k*gid(it0, (it1 if it1 < nv-1 else nv-1), nv-1))',
                              'implies(it0 < nu-1, grid_faces_row(out, it0, (it1 if it1 < nv-1 else nv-1), nv, triangulate))',
                              'grid_verts(out, it0, nv, nv)', 'grid_verts_row(out, it0, it1, nv)'])},
    ensures=['len(result.vertices._data) == nu*nv',
